@@ -108,15 +108,13 @@ Definition names_of (l : list str) : list name := List.map name_of l.
 Definition spec_blocks (m wild w : list str) (q : str) : bool :=
   spec_blocked_b (names_of m) (names_of wild) (names_of w) (name_of q).
 
-(* two memories with the same whitelist block the same names iff they agree on
-   every entry and on a fresh child of every entry (argument in NOTES.md) *)
-Definition fresh_child (k : str) : str := S "zq9verif." ++ (match k with [] => [c_dot] | _ => k end).
-Definition equiv_probes (m1 wild1 m2 wild2 : list str) : list str :=
-  let ks := m1 ++ wild1 ++ m2 ++ wild2 in
-  ks ++ List.map fresh_child ks.
+(* two memories with the same whitelist block the same names iff they agree on every
+   entry and on a fresh child of every entry: Spec.spec_equiv_n, proved sound in
+   Proofs_equiv.v *)
+Definition zlabel : label := S "zq9verif".
+Definition fresh_child (k : str) : str := zlabel ++ [c_dot] ++ (match k with [] => [] | [c] => if c =? c_dot then [] else k | _ => k end).
 Definition spec_equiv (w m1 wild1 m2 wild2 : list str) : bool :=
-  forallb (fun q => Bool.eqb (spec_blocks m1 wild1 w q) (spec_blocks m2 wild2 w q))
-          (equiv_probes m1 wild1 m2 wild2).
+  spec_equiv_n zlabel (names_of w) (names_of m1) (names_of wild1) (names_of m2) (names_of wild2).
 
 (* keys a Set call accepted and no later Remove / RemoveBatch names: listed at the end *)
 Definition mentions_remove (ck : str) (o : op) : bool :=
